@@ -333,13 +333,35 @@ def gen_race_plan(run_seed: int, k: int) -> dict:
                 rule, text = first if same else rng.choice(calls)
                 ops.append({"op": "parse", "t": target, "rule": rule, "text": text, "pos": 0})
             clients.append(ops)
+        builder = rng.random() < 0.3
+        if builder:
+            # BUILD-vs-USE round: one more client builds (or generates from) another object
+            # while the others parse with the round's target -- and then uses what it built
+            counter += 1
+            bops = []
+            if rng.random() < 0.7:
+                g2 = rng.choice(gids)
+                bops.append({"op": "new", "id": f"p{counter}", "g": g2, "opt": rng.choices(("o_none", "o_shared", "o1"), (2, 5, 3))[0], "debug": rng.random() < 0.2})
+                made = f"p{counter}"
+                if rng.random() < 0.4:
+                    counter += 1
+                    bops.append({"op": "gen", "id": f"m{counter}", "p": made})
+                    made = f"m{counter}"
+                rule, text = rng.choice(gsel[g2]["calls"])
+                bops.append({"op": "parse", "t": made, "rule": rule, "text": text, "pos": 0})
+            else:
+                bops.append({"op": "gen", "id": f"m{counter}", "p": pid})
+                rule, text = rng.choice(calls)
+                bops.append({"op": "parse", "t": f"m{counter}", "rule": rule, "text": text, "pos": 0})
+            clients.append(bops)
         for i, op in enumerate(setup):
             op["oid"] = f"r{r}.s.{i}"
         for c, ops in enumerate(clients):
             for i, op in enumerate(ops):
                 op["oid"] = f"r{r}.c{c}.{i}"
         if rng.random() < 0.6:
-            policy = {"kind": "pct", "points": sorted(rng.randint(1, rng.choice((60, 150, 400))) for _ in range(rng.choice((1, 1, 2))))}
+            span = rng.choice((60, 150, 400)) if not builder else rng.choice((150, 1000, 6000))
+            policy = {"kind": "pct", "points": sorted(rng.randint(1, span) for _ in range(rng.choice((1, 1, 2))))}
         else:
             policy = {"kind": "rand", "p": rng.choice((0.005, 0.02, 0.05, 0.1))}
         phases.append({"setup": setup, "clients": clients, "policy": policy, "sched_seed": rng.randrange(1 << 30), "faults": []})
@@ -1229,6 +1251,17 @@ class Check:
         elif plan.get("policy"):
             parts.append(f"policy: {plan['policy']}")
         return " | ".join(parts)
+
+    def vacuity(self, acc):
+        out = []
+        if acc.get("runs", 0) > 20:
+            if not acc.get("parses_checked"):
+                out.append("vacuous run: no parse was compared with an isolated reference")
+            if not acc.get("switches"):
+                out.append("vacuous run: the scheduler never switched clients")
+            if acc.get("runs_by_policy", {}).keys() - {"seq", "race"} and not acc.get("steps"):
+                out.append("vacuous run: traced policies ran but no scheduler step was counted (settrace seam lost)")
+        return out
 
     def assumptions(self):
         return [
